@@ -235,6 +235,24 @@ func targetedHistory(r *rand.Rand) history {
 	return h
 }
 
+// stressHistory keeps HOTKEY readers busy while collect merges: 8 keys of equal length, every
+// one of them with tens of thousands of visits in every period, so that the merge phase of a
+// collect (one ReaptIncr trial per visit, then the sorted inserts) lasts milliseconds while the
+// readers walk the published slice hundreds of times.
+func stressHistory(r *rand.Rand, periods int) history {
+	h := history{Cap: 8, Source: "reader-stress", Heavy: true}
+	for p := 0; p < periods; p++ {
+		for i := 0; i < 8; i++ {
+			h.Ops = append(h.Ops, op{Op: "incr", C: fmt.Sprintf("n%d", 1+r.Intn(2)), K: fmt.Sprintf("k%d", i), N: 15000 + r.Intn(30000)})
+		}
+		h.Ops = append(h.Ops, op{Op: "collect"})
+		if p%4 == 3 {
+			h.Ops = append(h.Ops, op{Op: "tick"}, op{Op: "evict"}, op{Op: "read"})
+		}
+	}
+	return h
+}
+
 // ---- scripted minute clock
 
 type clock struct {
@@ -292,6 +310,7 @@ type kn struct {
 type event struct {
 	Ev      string `json:"ev"`
 	H       int    `json:"h"`
+	S       int    `json:"s"` // position of the event in its history
 	Cap     int    `json:"cap,omitempty"`
 	M       int64  `json:"m,omitempty"`
 	C       string `json:"c,omitempty"`
@@ -302,12 +321,13 @@ type event struct {
 	Latched []kn   `json:"latched,omitempty"`
 	Rep     []kv   `json:"rep,omitempty"`
 	View    []kv   `json:"view,omitempty"`
+	Again   []kv   `json:"again,omitempty"` // second walk over the same slice, when it differs from the first
 	During  string `json:"during,omitempty"`
 }
 
 // MarshalJSON keeps empty slices as [] (TLC needs the fields to exist).
 func (e event) MarshalJSON() ([]byte, error) {
-	m := map[string]interface{}{"ev": e.Ev, "h": e.H}
+	m := map[string]interface{}{"ev": e.Ev, "h": e.H, "s": e.S}
 	nz := func(x []kv) []kv {
 		if x == nil {
 			return []kv{}
@@ -335,27 +355,32 @@ func (e event) MarshalJSON() ([]byte, error) {
 		m["view"] = nz(e.View)
 	case "pread":
 		m["view"], m["during"] = nz(e.View), e.During
+		if e.Again != nil {
+			m["again"] = e.Again
+		}
 	}
 	return json.Marshal(m)
 }
 
 type hsummary struct {
-	H         int    `json:"h"`
-	Source    string `json:"source"`
-	Cap       int    `json:"cap"`
-	Ops       int    `json:"ops"`
-	Collects  int    `json:"collects"`
-	Evicts    int    `json:"evicts"`
-	Straddles int    `json:"straddles"` // jobs with a clock tick inside
-	Reads     int    `json:"reads"`
-	PReads    int    `json:"preads"`  // distinct views seen by parallel readers
-	PLoops    int64  `json:"ploops"`  // reports read by the parallel readers
-	Overlap   int    `json:"overlap"` // parallel views that differ from the report before and after the job
-	First     int    `json:"first"`   // index of the history's first event
-	Events    int    `json:"events"`
-	Heavy     bool   `json:"heavy"`
-	Panic     string `json:"panic,omitempty"`
-	Script    []op   `json:"script,omitempty"`
+	H           int    `json:"h"`
+	Source      string `json:"source"`
+	Cap         int    `json:"cap"`
+	Ops         int    `json:"ops"`
+	Collects    int    `json:"collects"`
+	Evicts      int    `json:"evicts"`
+	Straddles   int    `json:"straddles"` // jobs with a clock tick inside
+	Reads       int    `json:"reads"`
+	PReads      int    `json:"preads"` // distinct views seen by parallel readers
+	PLoops      int64  `json:"ploops"` // reports read by the parallel readers
+	During      int64  `json:"during"` // ... of which completely while a job was running
+	ReaderPanic string `json:"reader_panic,omitempty"`
+	Overlap     int    `json:"overlap"` // parallel views that differ from the report before and after the job
+	First       int    `json:"first"`   // index of the history's first event
+	Events      int    `json:"events"`
+	Heavy       bool   `json:"heavy"`
+	Panic       string `json:"panic,omitempty"`
+	Script      []op   `json:"script,omitempty"`
 }
 
 func toKV(in []hotkey.VerifHotKey, withLut bool) []kv {
@@ -396,6 +421,7 @@ func runHistory(id int, h history, clk *clock, readers int) (evs []event, sum hs
 	clk.arm(nil)
 	emit := func(e event) {
 		e.H = id
+		e.S = len(evs)
 		evs = append(evs, e)
 	}
 	emit(event{Ev: "reset", Cap: h.Cap, M: clk.get()})
@@ -407,27 +433,65 @@ func runHistory(id int, h history, clk *clock, readers int) (evs []event, sum hs
 		var stop int32
 		var wg sync.WaitGroup
 		var mu sync.Mutex
-		seen := map[string][]kv{}
-		var loops int64
+		type obs struct{ view, again []kv }
+		seen := map[string]obs{}
+		odd := map[string]obs{} // observations worth keeping whatever the cap on seen
+		var loops, during int64
+		var running int32
+		var rpanic string
 		started := make(chan struct{}, readers)
 		for i := 0; i < readers; i++ {
 			wg.Add(1)
 			go func(i int) {
 				defer wg.Done()
 				first := true
+				defer func() {
+					if r := recover(); r != nil {
+						mu.Lock()
+						rpanic = fmt.Sprint(r)
+						mu.Unlock()
+						if first {
+							started <- struct{}{}
+						}
+					}
+				}()
 				for atomic.LoadInt32(&stop) == 0 || first {
+					inJob := atomic.LoadInt32(&running) == 1
+					// what handleHotKey does: take the slice, walk it without the lock ...
 					ks := coll.HotKeys()
 					var between func(int)
 					if i%2 == 1 {
 						between = func(int) { runtime.Gosched() }
 					}
 					v := toKV(hotkey.VerifReadReport(ks, between), false)
+					// ... and walk the very same slice once more: a report a reader holds must not change
+					v2 := toKV(hotkey.VerifReadReport(ks, nil), false)
+					inJob = inJob && atomic.LoadInt32(&running) == 1
 					key := viewKey(v)
+					o := obs{view: v}
+					strange := false
+					if k2 := viewKey(v2); k2 != key {
+						key += "|" + k2
+						o.again = v2
+						strange = true
+					}
+					names := map[string]bool{}
+					for j, e := range v {
+						if names[e.K] || (j > 0 && v[j-1].V < e.V) {
+							strange = true
+						}
+						names[e.K] = true
+					}
 					mu.Lock()
-					if _, ok := seen[key]; !ok && len(seen) < 64 {
-						seen[key] = v
+					if _, ok := seen[key]; !ok && len(seen) < 48 {
+						seen[key] = o
+					} else if _, ok2 := odd[key]; !ok && !ok2 && strange && len(odd) < 16 {
+						odd[key] = o
 					}
 					loops++
+					if inJob {
+						during++
+					}
 					mu.Unlock()
 					if first {
 						first = false
@@ -439,11 +503,20 @@ func runHistory(id int, h history, clk *clock, readers int) (evs []event, sum hs
 		for i := 0; i < readers; i++ {
 			<-started
 		}
+		atomic.StoreInt32(&running, 1)
 		run()
+		atomic.StoreInt32(&running, 0)
 		atomic.StoreInt32(&stop, 1)
 		wg.Wait()
+		if rpanic != "" {
+			sum.ReaderPanic = rpanic
+		}
 		sum.PLoops += loops
+		sum.During += during
 		after := stripLut(toKV(hotkey.VerifKeys(coll), false))
+		for k, o := range odd {
+			seen[k] = o
+		}
 		keys := make([]string, 0, len(seen))
 		for k := range seen {
 			keys = append(keys, k)
@@ -451,12 +524,12 @@ func runHistory(id int, h history, clk *clock, readers int) (evs []event, sum hs
 		sort.Strings(keys)
 		pending := []event{}
 		for _, k := range keys {
-			v := seen[k]
+			o := seen[k]
 			if k != viewKey(before) && k != viewKey(after) {
 				sum.Overlap++
 			}
 			sum.PReads++
-			pending = append(pending, event{Ev: "pread", View: v, During: kind})
+			pending = append(pending, event{Ev: "pread", View: o.view, Again: o.again, During: kind})
 		}
 		return pending
 	}
@@ -544,7 +617,8 @@ func collectorRun(args []string) error {
 	heavyN := fs.Int("heavy", 4, "number of random histories with very hot keys (long merges)")
 	traceOut := fs.String("trace", "", "events (ndjson)")
 	sumOut := fs.String("sum", "", "history summaries (ndjson)")
-	readers := fs.Int("readers", 3, "parallel HOTKEY readers during every job")
+	readers := fs.Int("readers", 4, "parallel HOTKEY readers during every job")
+	stress := fs.Int("stress", 2, "number of reader-stress histories (12 periods of very hot keys each)")
 	win := fs.String("win", "", "TLC behaviours that end inside the evictStale window (ndjson)")
 	winRep := fs.Int("winrep", 4, "how often every window behaviour is driven (hot-and-cold scaling, fresh random heats)")
 	targeted := fs.Int("targeted", 12, "number of random histories aimed at the evictStale window")
@@ -586,6 +660,9 @@ func collectorRun(args []string) error {
 	}
 	for i := 0; i < *targeted; i++ {
 		hs = append(hs, targetedHistory(r))
+	}
+	for i := 0; i < *stress; i++ {
+		hs = append(hs, stressHistory(r, 12))
 	}
 	for i := 0; i < *n; i++ {
 		hs = append(hs, randomHistory(r, i < *heavyN))
